@@ -250,11 +250,11 @@ def unwrap_jobs(ctx, invariants, ops, lite=False):
                 lines_gen(6, 1, 1, ["Ru"], free=(0, 2), blank=False),
                 lines_gen(6 - d // 2, 2, 2, ["Ru", "R", "P"], free=(1,), blank=False),
                 lines_gen(10 - d, 2, 2, ["Ru"], blank=False),
-                lines_gen(11, 2, 3, ["Ru", "R"], blank=False, max_code=5, empty_default=True),   # removed sibling before a nested pair
+                lines_gen(11 if not lite else 9, 2, 3, ["Ru", "R"], blank=False, max_code=5, empty_default=True),   # removed sibling before a nested pair
                 lines_gen(8 - d // 2, 2, 2, ["Ru", "Pu"], base=1, blank=False),
                 lines_gen(6, 1, 1, ["Tu"], unit="\t", free=(0, 2), blank=False, suffix="あ"),
                 lines_gen(7 - d // 2, 1, 1, ["Ru"], blank=False, pairs=True, max_code=4),          # touching removed inline regions
-                lines_gen(7, 2, 2, ["Ru", "R"], blank=False, inline=True, max_code=3),              # tags sharing lines with code
+                lines_gen(7 if not lite else 5, 2, 2, ["Ru", "R"], blank=False, inline=True, max_code=3),   # tags sharing lines with code
                 lines_gen(6, 1, 1, ["Ru"], free=(0, 2), blank=False, base=1, code_b=" = 1"),       # interior blanks at the tag column
                 lines_gen(6, 1, 1, ["Ru"], unit="\t", free=(0, 2), blank=False, base=1, code_a=" "),
                 lines_gen(16, 3, 4, ["Ru", "R", "P", "Pu", "S"], free=(0, 1, 2), ws=(2,), simulate=(15 if lite else 80, 16))]
